@@ -58,7 +58,9 @@ def gen_partition_case(seed, idx, wellformed=True, max_nodes=260, force=None):
         # tuples, NumPy scalars, a NumPy array
         wrnd = random.Random(f"written-{seed}-{idx}")
         wstyle = wrnd.choice(["plain", "plain", "plain", "tuples", "npscalars", "nparray", "aliased", "aliased"])
-        if wstyle == "aliased" and len(dom) > 1 and all(r == dom[0] for r in dom):
+        if wstyle == "aliased" and len(dom) > 1:
+            # a cube written as [[lo, hi]] * d: every row is the same list object
+            box = [list(box[0]) for _ in box]; meta["box"] = box
             dom = [dom[0]] * len(dom)
             case.tags["written=aliased-rows"] += 1
         elif wstyle == "tuples":
